@@ -15,6 +15,7 @@ import (
 
 	"github.com/contiv/libOpenflow/common"
 	of "github.com/contiv/libOpenflow/openflow13"
+	"github.com/contiv/libOpenflow/protocol"
 	"github.com/contiv/libOpenflow/util"
 )
 
@@ -236,6 +237,35 @@ func buildFrame(kind string, size int, xid uint32, rnd *rand.Rand) []byte {
 		f.AddInstruction(ins)
 		f.AddInstruction(of.NewInstrGotoTable(uint8(rnd.Intn(250))))
 		m = f
+	case "packetin": // Ethernet / IPv4 / UDP carried in a packet-in: nested decoders copy out of the pooled buffer
+		pi := of.NewPacketIn()
+		pi.Xid = xid
+		pi.BufferId = 0xffffffff
+		pi.Reason = 1
+		pi.Cookie = rnd.Uint64()
+		pi.Match.AddField(*of.NewInPortField(rnd.Uint32()))
+		udp := protocol.NewUDP()
+		udp.PortSrc, udp.PortDst = uint16(rnd.Intn(65536)), uint16(rnd.Intn(65536))
+		n := size - 90
+		if n < 4 {
+			n = 4
+		}
+		udp.Data = make([]byte, n)
+		rnd.Read(udp.Data)
+		udp.Length = udp.Len()
+		ip := protocol.NewIPv4()
+		ip.Version, ip.IHL, ip.Protocol, ip.TTL = 4, 5, 17, 64
+		ip.NWSrc, ip.NWDst = net.IPv4(10, 1, byte(rnd.Intn(256)), 1).To4(), net.IPv4(10, 2, byte(rnd.Intn(256)), 2).To4()
+		ip.Data = udp
+		ip.Length = ip.Len()
+		eth := protocol.NewEthernet()
+		eth.HWDst, eth.HWSrc = net.HardwareAddr{2, 0, 0, 0, 0, byte(rnd.Intn(256))}, net.HardwareAddr{2, 0, 0, 0, 1, byte(rnd.Intn(256))}
+		eth.Ethertype = 0x0800
+		eth.Data = ip
+		pi.Data = *eth
+		pi.TotalLen = eth.Len()
+		pi.Header.Length = pi.Len()
+		m = pi
 	default: // "error": an error message carrying size-12 bytes of data
 		e := of.NewErrorMsg()
 		e.Header = of.NewOfp13Header()
